@@ -67,6 +67,9 @@ class UnprintableFault(InjectedFault):
         return 'UnprintableFault(...)'
 
 
+TOKEN = object()
+
+
 def dec(value):
     """Decode tagged JSON into the value domain: {"__tuple__": [...]} -> tuple, {"__uuid__": s} -> UUID."""
     if isinstance(value, dict):
@@ -79,6 +82,8 @@ def dec(value):
                 return uuid.UUID(value['__uuid__'])
             if '__exc__' in value:
                 return ValueError(value['__exc__'])
+            if '__token__' in value:
+                return TOKEN  # a bare sentinel object (the same one every time): a value like any other
             if '__lock__' in value:
                 import threading
 
